@@ -88,6 +88,11 @@ pub fn one<const D: usize>(id: &str, ps: &gens::PointSet, g: usize, robust: bool
 
 pub fn run(cfg: &Cfg, rng: &mut Rng, out: &mut Out) {
     let thorough = cfg.tier == "thorough";
+    // unsuitable input must yield Err, never a panic: inputs too small (or too small after dedup)
+    // through every constructor API
+    crate::p19::small_inputs::<2>("sm2", rng, out);
+    crate::p19::small_inputs::<3>("sm3", rng, out);
+    crate::p19::small_inputs::<4>("sm4", rng, out);
     let n = if thorough { 2500 } else { 260 };
     for i in 0..n {
         let d = 2 + (i % 4);
